@@ -238,8 +238,15 @@ func (c *Ctx) typeOfCryptoHash(fn *ssa.Function) types.Type {
 }
 
 // nameTable evaluates the unique module map[string]T for the named module type T.
-func nameTable(c *Ctx, ev *evaluator, elemType string) (map[string]int64, *ssa.Global, string) {
+type hasPos interface{ Pos() token.Pos }
+
+func nameTable(c *Ctx, ev *evaluator, elemType string) (map[string]int64, hasPos, string) {
 	gs := c.globalsOfType(func(t types.Type) bool { return isMapOf(t, isString, c.isModNamed(elemType)) })
+	if len(gs) == 0 {
+		// no map: a function from the name to the constant (a switch, a search in a table of entries), folded for every
+		// name of the schema
+		return nameTableByFolding(c, elemType)
+	}
 	if len(gs) != 1 {
 		return nil, nil, sprintf("expected exactly one package-level map[string]%s, found %d", elemType, len(gs))
 	}
@@ -627,10 +634,20 @@ func ruleTabKeyAlg(c *Ctx, r *Rep) {
 // ruleKeyDefaults: omitted keyAlgorithm -> P-224 or P-256; omitted signatureAlgorithm ->
 // RSAwithSHA256 iff the configured key name starts with "RSA", else ECDSAwithSHA256.
 func ruleKeyDefaults(c *Ctx, r *Rep, ev *evaluator, keyNames map[string]int64) {
-	sigNames, _, why := nameTable(c, ev, "SignatureAlgorithm")
+	sigNames, sigAt, why := nameTable(c, ev, "SignatureAlgorithm")
 	if why != "" {
 		r.Undecided("anchor:sigAlgorithms", "", why)
 		return
+	}
+	// where the name tables are functions, what they answer is a looked-up value, not a default
+	lookups := map[*ssa.Function]bool{}
+	if f, ok := sigAt.(*ssa.Function); ok {
+		lookups[f] = true
+	}
+	if _, keyAt, _ := nameTable(c, ev, "KeyAlgorithm"); keyAt != nil {
+		if f, ok := keyAt.(*ssa.Function); ok {
+			lookups[f] = true
+		}
 	}
 	// the function that stores into CertificateContent.KeyAlgorithm / SignatureAlgorithm from the YAML struct
 	var fn *ssa.Function
@@ -682,7 +699,7 @@ func ruleKeyDefaults(c *Ctx, r *Rep, ev *evaluator, keyNames map[string]int64) {
 			}
 		case *ssa.Extract:
 			if call, ok := x.Tuple.(*ssa.Call); ok {
-				if g := call.Call.StaticCallee(); g != nil && c.InModule(g) && g.Blocks != nil {
+				if g := call.Call.StaticCallee(); g != nil && c.InModule(g) && g.Blocks != nil && !lookups[g] {
 					gs := append([]guard{}, acc...)
 					if at != nil {
 						gs = append(gs, guardsOf(at)...)
@@ -696,7 +713,7 @@ func ruleKeyDefaults(c *Ctx, r *Rep, ev *evaluator, keyNames map[string]int64) {
 				}
 			}
 		case *ssa.Call:
-			if g := x.Call.StaticCallee(); g != nil && c.InModule(g) && g.Blocks != nil {
+			if g := x.Call.StaticCallee(); g != nil && c.InModule(g) && g.Blocks != nil && !lookups[g] {
 				gs := append([]guard{}, acc...)
 				if at != nil {
 					gs = append(gs, guardsOf(at)...)
@@ -1915,4 +1932,71 @@ func rawValueOfOid(v ssa.Value, oidIs func(ssa.Value) bool) bool {
 		}
 	}
 	return false
+}
+
+// nameTableByFolding: the function func(string) (T, bool|error) of the configuration reader, specialised for every
+// name of the schema's enum and of the reference table; a name it answers with false or an error has no entry.
+func nameTableByFolding(c *Ctx, elemType string) (map[string]int64, hasPos, string) {
+	isT := c.isModNamed(elemType)
+	var fn *ssa.Function
+	for _, f := range c.Funcs {
+		res := f.Signature.Results()
+		if f.Parent() != nil || f.Blocks == nil || f.Signature.Recv() != nil || len(f.Params) != 1 || !isString(f.Params[0].Type()) || res.Len() != 2 || !isT(res.At(0).Type()) {
+			continue
+		}
+		if !isBoolType(res.At(1).Type()) && !isErrorType(res.At(1).Type()) {
+			continue
+		}
+		// the innermost one: it calls no other function of this kind
+		inner := true
+		for _, ci := range callsIn(f) {
+			if h := ci.Common().StaticCallee(); h != nil && h != f && c.InModule(h) && h.Signature.Results().Len() == 2 && isT(h.Signature.Results().At(0).Type()) && len(h.Params) == 1 && isString(h.Params[0].Type()) {
+				inner = false
+			}
+		}
+		if !inner {
+			continue
+		}
+		if fn != nil {
+			return nil, nil, sprintf("no package-level map[string]%s and more than one func(string) (%s, ...)", elemType, elemType)
+		}
+		fn = f
+	}
+	if fn == nil {
+		return nil, nil, sprintf("no package-level map[string]%s and no func(string) (%s, bool or error) to fold", elemType, elemType)
+	}
+	prop := strings.ToLower(elemType[:1]) + elemType[1:]
+	names, why := schemaEnum(c, "certificate.json", "properties", prop, "enum")
+	if why != "" {
+		return nil, nil, why
+	}
+	ref := "keyalgs"
+	if elemType == "SignatureAlgorithm" {
+		ref = "sigalgs"
+	}
+	for _, e := range refList(ref) {
+		if n := rs(e, "name"); n != "" {
+			names = append(names, n)
+		}
+	}
+	out := map[string]int64{}
+	for _, name := range uniq(names) {
+		fo := c.newFolder()
+		res, ok := fo.Fold(fn, []*fval{fconst(constant.MakeString(name))}, 0)
+		if !ok {
+			return nil, nil, "the function from a name to its " + elemType + " cannot be folded for " + name + ": " + fo.why
+		}
+		if len(res) != 2 || res[0].k == nil {
+			continue
+		}
+		if res[1].k != nil && res[1].k.Kind() == constant.Bool && !constant.BoolVal(res[1].k) {
+			continue
+		}
+		if res[1].k == nil && !res[1].isNil {
+			continue // an error
+		}
+		v, _ := constant.Int64Val(res[0].k)
+		out[name] = v
+	}
+	return out, fn, ""
 }
